@@ -128,9 +128,9 @@ inductive Ev
   | listAbort (ok : Bool)
   /-- `Parse` callback -/
   | parse (f : Feature) (st : St) (req : Bool) (err : Bool)
-  /-- the initiator finished reading a features list: what it cached (model-internal, not
-  observable) -/
-  | listIn (st : St) (fs : List Feature)
+  /-- the initiator finished reading a features list `adv`: what it cached (model-internal,
+  not observable) -/
+  | listIn (st : St) (fs : List Feature) (adv : List AdvItem)
   /-- `Negotiate` callback of `f` at state `st`; `req`: the cache entry was mandatory;
   `forced`: the unconditional STARTTLS attempt; `srv`: receiving side -/
   | neg (f : Feature) (st : St) (req forced srv : Bool) (r : NegRes)
@@ -226,6 +226,8 @@ structure Conf where
   total : Nat
   /-- receiver: features written so far into the current list -/
   listed : List Feature
+  /-- initiator: the features list being read / read last (ghost: only recorded in `listIn`) -/
+  curAdv : List AdvItem
   deriving Repr
 
 def Conf.log (c : Conf) (e : Ev) : Conf := { c with tr := e :: c.tr }
@@ -234,7 +236,7 @@ def Conf.goto (c : Conf) (p : Pc) : Conf := { c with pc := p }
 def init (st0 : St) (script : List Peer) (picks : List FName) : Conf :=
   { pc := .top, st := st0, negd := [], tr := [], io := 0, script := script, picks := picks,
     doRestart := true, first := true, srv := false, cache := [], lreq := false, total := 0,
-    listed := [] }
+    listed := [], curAdv := [] }
 
 /-- `intstream.Send` -/
 def writeHdr (O : Oracle) (c : Conf) (next : Pc) : Conf :=
@@ -314,11 +316,12 @@ def step (C : List Feature) (O : Oracle) (c : Conf) : Conf :=
     else match c.script with
       | [] => { c with io := c.io + 1, tr := .rd .list .eof :: c.tr, pc := .fail .io }
       | .adv items :: r =>
-        { c with io := c.io + 1, tr := .rd .list .got :: c.tr, script := r, pc := .parsing items }
+        { c with io := c.io + 1, tr := .rd .list .got :: c.tr, script := r, pc := .parsing items,
+                 curAdv := items }
       | .serr :: r =>
         { c with io := c.io + 1, tr := .rd .list .got :: c.tr, script := r, pc := .fail .streamErr }
       | _ :: r => { c with io := c.io + 1, tr := .rd .list .got :: c.tr, script := r, pc := .fail .proto }
-  | .parsing [] => (c.log (.listIn c.st (c.cache.map (·.f)))).goto .decide
+  | .parsing [] => (c.log (.listIn c.st (c.cache.map (·.f)) c.curAdv)).goto .decide
   | .parsing (.junk :: _) => c.goto (.fail .proto)
   | .parsing (.feat name req :: rest) =>
     let c := { c with total := c.total + 1 }
